@@ -88,6 +88,10 @@ type CrashCase struct {
 	// JobsCatch: the monitors of the running jobs record the signal
 	// ("_errors: Caught signal terminated") instead of vanishing.
 	JobsCatch bool   `json:"jobs_catch,omitempty"`
+	// Straggle: the monitors of the jobs running at the interruption stay
+	// alive and record the signal only after the restarted mrp has started
+	// the next attempt of their job.
+	Straggle bool `json:"straggle,omitempty"`
 	Effect    string `json:"effect,omitempty"`
 }
 
@@ -165,7 +169,11 @@ func evalCrash(c CrashCase, ref *progen.RefResult, p *progen.Program) crashOutco
 			inc2 = mid
 		}
 	} else {
-		inc2 = Run(p, Schedule{}, Options{PsDir: dir, Resume: true, MrpPid: pid, VdrMode: vm})
+		var late []core.VerifStraggler
+		if c.Straggle {
+			late = inc1.Running
+		}
+		inc2 = Run(p, Schedule{}, Options{PsDir: dir, Resume: true, MrpPid: pid, VdrMode: vm, Stragglers: late})
 	}
 	out.inc2 = inc2
 	if inc2.Err != "" {
@@ -404,6 +412,10 @@ func CrashCheck() {
 			items = append(items, item{si, CrashCase{Shape: sh, CrashAt: n, Handled: true}})
 			items = append(items, item{si, CrashCase{Shape: sh, CrashAt: n, JobsCatch: true}})
 			items = append(items, item{si, CrashCase{Shape: sh, CrashAt: n, Handled: true, JobsCatch: true}})
+			if n-1 < len(base.EffectLog) && strings.Contains(base.EffectLog[n-1], "@job:") {
+				// a job is running at this instant
+				items = append(items, item{si, CrashCase{Shape: sh, CrashAt: n, Straggle: true}})
+			}
 			if n-1 < len(base.EffectLog) && strings.HasPrefix(base.EffectLog[n-1], "write ") &&
 				!strings.Contains(base.EffectLog[n-1], "journal") {
 				items = append(items, item{si, CrashCase{Shape: sh, CrashAt: n, Torn: 1}})
@@ -429,7 +441,7 @@ func CrashCheck() {
 		it := items[idx]
 		info := infos[it.shape]
 		o := evalCrash(it.c, info.ref, info.p)
-		key := fmt.Sprintf("%s|%d|%d|%v|%v", it.c.Shape.Name(), it.c.CrashAt, it.c.Torn, it.c.Handled, it.c.JobsCatch)
+		key := fmt.Sprintf("%s|%d|%d|%v|%v|%v", it.c.Shape.Name(), it.c.CrashAt, it.c.Torn, it.c.Handled, it.c.JobsCatch, it.c.Straggle)
 		if o.note == "no-crash" {
 			r.Eval("")
 			r.Outcome("no-crash")
